@@ -51,7 +51,13 @@ def single_connection_survives():
         await st.set("j", 2)
         st2 = ws.create_state_store("run-2")
         await st2.set("x", 3)
-        return v1 == 1 and (await st.get("j")) == 2 and (await st2.get("x")) == 3
+        ok = v1 == 1 and (await st.get("j")) == 2 and (await st2.get("x")) == 3
+        # a third run seeded from the first run's stored state (what a re-run from a previous context does), then
+        # every store keeps answering
+        from workflows.context.serializers import JsonSerializer
+        st3 = ws.create_state_store("run-3", None, {"store_type": "sqlite", "run_id": st.run_id}, JsonSerializer())
+        await st3.set("y", 4)
+        return ok and (await st3.get("y")) == 4 and (await st.get("k")) == 1 and (await st2.get("x")) == 3
 
     try:
         return asyncio.run(go()), "ok"
